@@ -26,6 +26,7 @@ TECHNIQUE += '; SCC marking: no memoized rule on a cycle, all graphs with <= 3 e
 LEVEL_TEXT += ' Added clause: every rule on a left-recursive cycle loses memoization (a split component is reported).'
 TECHNIQUE += '; the analysis runs over every rule (= C16.R3)'
 LEVEL_TEXT += ' Added clause: rules reached only through start=, an include or a base rule are analysed too.'
+LEVEL_TEXT += ' Added clauses (rounds 9-11): the store of growing seeds is pruned only by its owners.'
 TECHNIQUE += '; the store of left-recursion seeds is not an evicting container (= C04.R9)'
 TECHNIQUE += '; the seed store is rebuilt per parse (= C06.R6)'
 TECHNIQUE += '; the store of growing seeds is pruned only by its owners (C03.R7 = C04.R2, stores followed through helpers and loops over displays)'
